@@ -60,7 +60,7 @@ Rec(i) ==
            nc   == NCaps(re)
            al   == Alphabet(re, MBFor(i), ILLFor(i))
            L    == LenFor(Cardinality(al), Budget, LCap)
-           H    == SetToSeq(SeqsUpTo(al, L))
+           H    == SetToSeq(SeqsUpTo(al, L) \cup Splice(prog, al, Budget \div 3))
        IN [fam |-> Family, i |-> i, re |-> rn, nc |-> nc, names |-> Names(rn),
            hs |-> [j \in 1..Len(H) |-> HRec(prog, nc, H[j])]]
 
